@@ -539,3 +539,91 @@ Proof.
   rewrite (rows_all_matches st ws (pre_hd st acct) _ Hok (fun X => hd_skip st acct X Ha) (foot_none st)).
   apply trades_ok; assumption.
 Qed.
+
+(* ------------------------------------------------------------------ the theorem *)
+Definition dec_split (t : text) : text * text := let '(a, r) := span is_digit t in (a, tl r).
+Lemma is_dec_split t : is_dec t = true ->
+  t = fst (dec_split t) ++ 46 :: snd (dec_split t) /\ decparts (fst (dec_split t)) (snd (dec_split t)).
+Proof.
+  intros H. unfold dec_split. unfold is_dec in H. destruct (span is_digit t) as [a r] eqn:E.
+  destruct (span_spec _ _ _ _ E) as [H1 H2]. destruct r as [|c b]; [discriminate|]. destruct (c =? 46) eqn:Ec.
+  2:{ exfalso. destruct c as [|p]; [discriminate|]. repeat (destruct p as [p|p|]; try discriminate). }
+  apply N.eqb_eq in Ec. subst c. cbn [fst snd tl]. split; [exact H1|].
+  repeat (apply andb_true_iff in H; destruct H as [H ?]). repeat split; auto.
+  - intros ->. discriminate.
+  - intros ->. discriminate.
+  - apply Nat.leb_le. assumption.
+Qed.
+Lemma optdec_split o : optdec_ok o = true -> odec_ok (option_map dec_split o) /\ odec_text (option_map dec_split o) = o.
+Proof.
+  destruct o as [t|]; cbn [optdec_ok option_map odec_ok odec_text]; intros H; [|split; [exact I|reflexivity]].
+  destruct (is_dec_split t H) as [E D]. destruct (dec_split t) as [a b]. cbn [fst snd] in *. split; [exact D|]. rewrite <- E. reflexivity.
+Qed.
+
+Definition prow_of (t : pre_row_lay) : prow :=
+  let '(m1, d1, y1) := pl_td t in let '(m2, d2, y2) := pl_sd t in
+  {| w_m1 := m1; w_d1 := d1; w_y1 := y1; w_m2 := m2; w_d2 := d2; w_y2 := y2; w_sym := pl_sym t; w_act := pl_act t;
+     w_qty := pl_qty t; w_pa := fst (dec_split (pl_price t)); w_pb := snd (dec_split (pl_price t));
+     w_oc := option_map dec_split (pl_comm t); w_of := option_map dec_split (pl_fee t) |}.
+
+Lemma digits_value_20 y : length y = 2%nat -> digits_value (50 :: 48 :: y) = 2000 + digits_value y.
+Proof.
+  destruct y as [|a [|b [|c y]]]; try discriminate. intros _. unfold digits_value. cbn [fold_left]. unfold digit_val. lia.
+Qed.
+Lemma date_short_spec m d y : date_ok_short (m, d, y) = true ->
+  (digits m /\ digits d /\ digits y /\ m <> [] /\ d <> [] /\ y <> [])
+  /\ parse_short_mdy (m, d, y) = Ok (date_ord_short (m, d, y)).
+Proof.
+  unfold date_ok_short. intros H. apply andb_true_iff in H. destruct H as [HL HD]. apply Nat.eqb_eq in HL.
+  destruct (date_ok_spec _ _ _ HD) as (D1 & D2 & D3 & D4 & D5 & _ & P).
+  assert (Dy : digits y). { unfold digits in *. cbn [forallb] in D3. apply andb_true_iff in D3. destruct D3 as [_ D3]. apply andb_true_iff in D3. exact (proj2 D3). }
+  split; [repeat split; auto; intros ->; discriminate|].
+  change (parse_short_mdy (m, d, y)) with (parse_mdy (m, d, 50 :: 48 :: y)). etransitivity; [exact P|].
+  unfold date_ord, date_ord_short. rewrite (digits_value_20 y HL). reflexivity.
+Qed.
+
+Lemma pre_row_ok_spec t : pre_row_ok t = true -> prow_ok (prow_of t) /\ prow_sem (prow_of t) /\ lay_of (prow_of t) = t.
+Proof.
+  destruct t as [[[m1 d1] y1] [[m2 d2] y2] sym act qty price oc of]. unfold pre_row_ok.
+  cbn [pl_td pl_sd pl_sym pl_act pl_qty pl_price pl_comm pl_fee]. intros H.
+  apply andb_true_iff in H; destruct H as [H Wadd]. apply andb_true_iff in H; destruct H as [H Wne].
+  apply andb_true_iff in H; destruct H as [H Wof]. apply andb_true_iff in H; destruct H as [H Woc].
+  apply andb_true_iff in H; destruct H as [H Wprice]. apply andb_true_iff in H; destruct H as [H Wqty].
+  apply andb_true_iff in H; destruct H as [H Wact3]. apply andb_true_iff in H; destruct H as [H Wact2].
+  apply andb_true_iff in H; destruct H as [H Wact1]. apply andb_true_iff in H; destruct H as [H Wsym].
+  apply andb_true_iff in H; destruct H as [Wtd Wsd].
+  destruct (date_short_spec _ _ _ Wtd) as [T1 T2]. destruct (date_short_spec _ _ _ Wsd) as [S1 S2].
+  destruct (sym_ok_spec _ Wsym) as (Y1 & Y2 & _).
+  destruct (is_dec_split _ Wprice) as [EP DP]. destruct (optdec_split _ Woc) as [OC1 OC2]. destruct (optdec_split _ Wof) as [OF1 OF2].
+  unfold int_ok in Wqty. apply andb_true_iff in Wqty. destruct Wqty as [Wq1 Wq2]. apply Nat.leb_le in Wq2.
+  destruct (num_ok_spec _ Wq1) as [Q1 Q2].
+  assert (Na : act <> []) by (intros ->; discriminate).
+  unfold prow_of. cbn [pl_td pl_sd pl_sym pl_act pl_qty pl_price pl_comm pl_fee].
+  split; [|split].
+  - unfold prow_ok. cbn [w_m1 w_d1 w_y1 w_m2 w_d2 w_y2 w_sym w_act w_qty w_pa w_pb w_oc w_of].
+    repeat split; try apply T1; try apply S1; try apply DP; auto.
+    destruct oc, of; try discriminate Wne; cbn [option_map]; [left|left|right]; discriminate.
+  - unfold prow_sem. cbn [w_m1 w_d1 w_y1 w_m2 w_d2 w_y2 w_sym w_act w_qty w_pa w_pb w_oc w_of].
+    repeat split; auto.
+    rewrite <- !opt_dval_odec, OC2, OF2. exact Wadd.
+  - unfold lay_of. cbn [w_m1 w_d1 w_y1 w_m2 w_d2 w_y2 w_sym w_act w_qty w_pa w_pb w_oc w_of].
+    rewrite <- EP, OC2, OF2. reflexivity.
+Qed.
+
+Theorem pre_text_roundtrip st r : wf_pre r = true ->
+  parse_tc_pre (render_tc_pre st r) = Ok (pre_records (pr_acct r) 1 (pr_rows r)).
+Proof.
+  destruct r as [acct rows]. unfold wf_pre. cbn [pr_acct pr_rows]. intros H.
+  apply andb_true_iff in H; destruct H as [H Wrows]. apply andb_true_iff in H; destruct H as [Wacct _].
+  unfold acct_ok in Wacct. apply andb_true_iff in Wacct. destruct Wacct as [Wa1 Wa2].
+  assert (Na : acct <> []) by (intros ->; discriminate).
+  assert (HR : Forall (fun t => prow_ok (prow_of t) /\ prow_sem (prow_of t) /\ lay_of (prow_of t) = t) rows).
+  { apply Forall_forall. intros t Ht. apply pre_row_ok_spec. rewrite forallb_forall in Wrows. exact (Wrows t Ht). }
+  assert (EM : map lay_of (map prow_of rows) = rows).
+  { rewrite map_map. rewrite <- (map_id rows) at 2. apply map_ext_in. intros t Ht. rewrite Forall_forall in HR. apply (HR t Ht). }
+  assert (Hok : Forall prow_ok (map prow_of rows)).
+  { apply Forall_forall. intros x Hx. apply in_map_iff in Hx. destruct Hx as (t & <- & Ht). rewrite Forall_forall in HR. apply (HR t Ht). }
+  assert (Hsem : Forall prow_sem (map prow_of rows)).
+  { apply Forall_forall. intros x Hx. apply in_map_iff in Hx. destruct Hx as (t & <- & Ht). rewrite Forall_forall in HR. apply (HR t Ht). }
+  pose proof (pre_parse st acct (map prow_of rows) Na Wa2 Hok Hsem) as P. rewrite EM in P. exact P.
+Qed.
